@@ -67,9 +67,7 @@ Proof. exact append_wf. Qed.
 Print Assumptions C02_append_WF.
 
 Theorem C02_wrap_WF : forall n x k,
-  wf n x = true ->
-  (is_some (mr_matched x) = true -> mr_start x <> mr_end x) ->
-  wf n (wrap x (MKind k)) = true.
+  wf n x = true -> wf n (wrap x (MKind k)) = true.
 Proof. exact wrap_wf. Qed.
 Print Assumptions C02_wrap_WF.
 
